@@ -300,7 +300,10 @@ def every_string_skipped_whole(ctx, P, pre):
                 cursors.setdefault(l, []).append((b, got[1]["k"] == "const"))
             elif r["k"] == "use" and r["a"]["k"] in ("copy", "move") and f.local_name(r["a"]["p"]["l"]):
                 cursors.setdefault(l, []).append((b, False))      # cursor = other_local (e.g. offset = offset_end)
-    cursors = {l: v for l, v in cursors.items() if any(c for (_b, c) in v) or len(v) >= 2}
+    strict = {l: v for l, v in cursors.items() if any(c for (_b, c) in v) or len(v) >= 2}
+    # `offset = end` as the only write (the length byte is skipped in `start = offset + 1`): still the loop's cursor
+    outside = {s_["p"]["l"] for b in range(f.n) if b not in body for s_ in f.stmts(b) if s_["k"] == "assign" and not s_["p"]["proj"]}
+    cursors = strict or {l: v for l, v in cursors.items() if l in outside and any(not c for (_b, c) in v)}
     ctx.require(len(cursors) >= 1, pre + ".anchor", f.name + "|cursor", f.loc(head), "loop-carried cursor(s): %s" % sorted(f.local_name(l) for l in cursors))
     for l, v in sorted(cursors.items()):
         var = [b for (b, const) in v if not const]
